@@ -124,11 +124,19 @@ func (x *Exec) step(st *State, ins ssa.Instruction) {
 	case *ssa.Send:
 		x.doSend(st, i)
 	case *ssa.Range:
-		x.note("range over %s in %s: outside the subset", i.X.Type(), FuncName(f.Fn))
-		st.Dead = true
-		st.OutOfSubset = "range"
+		if mt, ok := i.X.Type().Underlying().(*types.Map); ok {
+			x.doRangeMap(st, i, mt)
+		} else {
+			x.note("range over %s in %s: outside the subset", i.X.Type(), FuncName(f.Fn))
+			st.Dead = true
+			st.OutOfSubset = "range"
+		}
 	case *ssa.Next:
-		st.Dead = true
+		if _, ok := st.Frame.Regs[i.Iter].(IterV); ok {
+			adv = x.doNextMap(st, i)
+		} else {
+			st.Dead = true
+		}
 	case *ssa.SliceToArrayPointer, *ssa.MultiConvert:
 		x.note("unsupported instruction %T in %s", ins, FuncName(f.Fn))
 		st.Dead = true
@@ -794,6 +802,88 @@ func (x *Exec) devirtualize(st *State, iface *Term, v Value, t types.Type) {
 		}
 		for k := range at {
 			st.Assume(Eq(at[k], bt[k]))
+		}
+	}
+}
+
+// ---------------------------------------------------------------------------------------------
+// range over a map: the iterator is the map plus the set of keys already produced. Next either
+// reports exhaustion (every present key was produced) or produces a present key not produced
+// before, in an arbitrary order. The map must not be modified by the loop body (not checked:
+// stated in the trusted base); a nil map has no keys.
+
+type IterV struct {
+	M  *Term
+	Mt *types.Map
+	V  *Term // Array Key Bool: keys produced so far
+}
+
+func (x *Exec) iterKeySort(st *State, mt *types.Map) string {
+	_, ks := x.mapKeys(st, mt)
+	if isStringType(mt.Key()) {
+		ks = SInt
+	}
+	return ks
+}
+
+func (x *Exec) doRangeMap(st *State, i *ssa.Range, mt *types.Map) {
+	x.heldCheckMap(st, i.X, i, false)
+	m := x.scalar(st, i.X)
+	ks := x.iterKeySort(st, mt)
+	v0 := Fresh("visited", SArr(ks, SBool))
+	k := Fresh("q$k", ks)
+	st.Assume(Forall([]*Term{k}, Not(Select(v0, k)), []*Term{Select(v0, k)}))
+	x.setReg(st, i, IterV{M: m, Mt: mt, V: v0})
+}
+
+func (x *Exec) doNextMap(st *State, i *ssa.Next) bool {
+	it := st.Frame.Regs[i.Iter].(IterV)
+	mt := it.Mt
+	ks := x.iterKeySort(st, mt)
+	pk, _ := x.mapKeys(st, mt)
+	pres := x.mapArr(st, pk+"#present", SArr(SInt, SArr(ks, SBool)))
+	presentAt := func(k *Term) *Term { return And(Neq(it.M, IntC(0)), Select(Select(pres, it.M), k)) }
+	// exhausted
+	done := x.fork(st)
+	{
+		k := Fresh("q$k", ks)
+		done.Assume(Forall([]*Term{k}, Implies(presentAt(k), Select(it.V, k)), []*Term{Select(it.V, k)}))
+		done.Frame.Regs[i] = TupleV{Scalar{TFalse, tyBool}, done.zeroValue(mt.Key()), done.zeroValue(mt.Elem())}
+		done.Trace = append(done.Trace, "range:done")
+		done.Events = append(done.Events, "range:done")
+		done.Frame.PC++
+		x.work = append(x.work, done)
+	}
+	// one more key
+	kv := st.freshValue("rk", mt.Key())
+	kt := x.mapKeyTerm(st, kv, mt.Key())
+	st.Assume(presentAt(kt))
+	st.Assume(Not(Select(it.V, kt)))
+	val, _ := x.mapLookup(st, it.M, mt, kt)
+	st.Frame.Regs[i.Iter] = IterV{M: it.M, Mt: mt, V: Store(it.V, kt, TTrue)}
+	st.Frame.Regs[i] = TupleV{Scalar{TTrue, tyBool}, kv, val}
+	st.Trace = append(st.Trace, "range:next")
+	st.Events = append(st.Events, "range:next")
+	return true
+}
+
+// havocIters forgets how far the map iterators advanced by the loop body got (they only grow).
+func (x *Exec) havocIters(st *State, blocks map[*ssa.BasicBlock]bool) {
+	for b := range blocks {
+		for _, ins := range b.Instrs {
+			nx, ok := ins.(*ssa.Next)
+			if !ok {
+				continue
+			}
+			it, ok := st.Frame.Regs[nx.Iter].(IterV)
+			if !ok {
+				continue
+			}
+			ks := x.iterKeySort(st, it.Mt)
+			nv := Fresh("visited", SArr(ks, SBool))
+			k := Fresh("q$k", ks)
+			st.Assume(Forall([]*Term{k}, Implies(Select(it.V, k), Select(nv, k)), []*Term{Select(nv, k)}))
+			st.Frame.Regs[nx.Iter] = IterV{M: it.M, Mt: it.Mt, V: nv}
 		}
 	}
 }
